@@ -135,6 +135,9 @@ class Interp:
         self.depth = 0
         self.fresh_id = 0
         self.stack = []
+        if not hasattr(self, "visited"):
+            self.visited = set()  # qualified names of every repository function whose body was interpreted (kept across explorations)
+            self.n_calls = 0
         self.loop_stack = []
 
     # ------------------------------------------------------------------ driver
@@ -232,6 +235,8 @@ class Interp:
             raise Unsupported(f"unexpected kwargs {list(kwargs)} calling {qual}")
         self.depth += 1
         self.stack.append(qual)
+        self.visited.add(qual)
+        self.n_calls += 1
         self.ev("enter", callee=qual)
         ret = [None]
         try:
